@@ -201,6 +201,7 @@ def run(F, chk):
     for n in sorted(set(eng.notes)):
         if n.startswith("BROKEN"):
             ra.broke(n)
+    upsert_rule(F, chk)
     # ---------------- R-C08-d routing table vs handlers --------------------
     rd = chk.rule("R-C08-d", "T7b", "every variant get_destinations routes to a proxy has an explicit arm there", floor=20)
     gd = F.body("sozu_command_lib::request::<impl sozu_command_lib::proto::command::Request>::get_destinations")
@@ -238,6 +239,27 @@ def run(F, chk):
             else:
                 rd.ok(key, "", "routed by the table but answered in notify/notify_proxys before the proxies are consulted", nontrivial=False)
     rd.fn(gd.path, *PROXIES.values())
+
+
+def upsert_rule(F, chk):
+    """R-C08-f: AddCluster is an upsert - the master replaces the whole Cluster entry, so the worker must
+    (re)apply every cluster-level knob unconditionally: each BackendMap setter that Server::add_cluster calls
+    lies on every path of the function (post-dominates its entry)."""
+    r = chk.rule("R-C08-f", "T3", "worker add_cluster applies every cluster knob unconditionally (upsert = replace)", floor=3)
+    b = F.body(SERVER + "::add_cluster")
+    r.fn(b.path)
+    setters = {}
+    for bi, t in b.calls():
+        c = callee_of(t)
+        if c.startswith("sozu_lib::backends::BackendMap::set_"):
+            setters.setdefault(c, []).append(bi)
+    for c, blocks in sorted(setters.items()):
+        cut = b.reach_from([0], removed=blocks)
+        key = "%s|%s on every path" % (b.path, c.split("::")[-1])
+        if [x for x in b.returns() if x in cut]:
+            r.violation(key, b.where(blocks[0]), "%s is skipped on some path of the worker's add_cluster: re-sending a cluster does not replace that knob although the master's ConfigState replaced the whole entry (views diverge silently)" % c.split("::")[-1])
+        else:
+            r.ok(key, b.where(blocks[0]), "applied on every path")
 
 
 def short_site(o):
